@@ -1,4 +1,5 @@
 import RimeModel.C01.HistoryLemmas
+import RimeModel.C01.HistoryTexts
 /-!
 # C01 — the commit history never hands out a dead record
 
@@ -73,6 +74,34 @@ theorem old_push_composition_reorders :
     texts (pushComposition true [] (alternating 1) [97, 49, 97]).recs = commitText (alternating 1) [97, 49, 97] := by
   decide
 
+/-- **push_composition_spells_commit_text** — functional correctness of the repaired `Push(composition, input)`: as long as
+the list does not rotate (fewer than `kMaxRecords` records afterwards) and no `substr` threw, the texts of the records,
+read in order, are the texts that were there before followed by exactly what `Composition::GetCommitText` delivers for
+that composition (no `phony` segment): joining adjacent candidates of one type never reorders or drops text.  For the
+code before the repair this is false (`old_push_composition_reorders`). -/
+theorem push_composition_spells_commit_text (h : List Rec) (segs : List SegV) (input : Bytes)
+    (hlen : h.length + segs.length + 1 ≤ maxRecords)
+    (hok : (pushComposition true h segs input).fault = .none) :
+    texts (pushComposition true h segs input).recs = texts h ++ commitText segs input := by
+  unfold pushComposition at hok ⊢
+  unfold commitText
+  simp only at hok ⊢
+  have hs : (segs.foldl (stepSeg true input) { recs := h, dropped := 0, last := none, endPos := 0, fault := .none }).fault = .none := by
+    split at hok
+    · rw [St.push_fault] at hok; exact hok
+    · exact hok
+  obtain ⟨h1, h2, h3⟩ := foldl_texts input segs { recs := h, dropped := 0, last := none, endPos := 0, fault := .none }
+    (texts h) ([], 0) (Or.inl rfl) rfl (by show h.length + segs.length < maxRecords + 1; omega)
+    (by show h.length + segs.length ≤ maxRecords; omega) (by simp) rfl hs
+  rw [← h2]
+  by_cases hgt : input.length > (segs.foldl (stepSeg true input) { recs := h, dropped := 0, last := none, endPos := 0, fault := .none }).endPos
+  · simp only [hs, hgt, and_self, ↓reduceIte]
+    rw [St.push_nodrop _ _ (by
+      have : (segs.foldl (stepSeg true input) { recs := h, dropped := 0, last := none, endPos := 0, fault := .none }).recs.length ≤ h.length + segs.length := h3
+      omega), texts_append, h1, List.append_assoc]
+  · simp only [hs, hgt, and_false, ↓reduceIte]
+    exact h1
+
 /-- `Push(key)`: BackSpace and Return without modifiers forget everything, a printable key is recorded as typed, any
 other key and any key with a modifier leaves the history alone. -/
 theorem push_key_cases (h : List Rec) (k m : Nat) :
@@ -90,5 +119,11 @@ theorem push_key_cases (h : List Rec) (k m : Nat) :
 -- non-vacuity: a history at its bound, a composition that rotates it
 example : (pushComposition true (List.replicate 20 ⟨rawType, [120]⟩) (alternating 3) (List.replicate 8 97)).recs.length = 20 ∧
     (pushComposition true (List.replicate 20 ⟨rawType, [120]⟩) (alternating 3) (List.replicate 8 97)).dropped = 5 := by decide
+
+-- non-vacuity of push_composition_spells_commit_text: three segments, two joined, text behind the last segment
+example : let segs : List SegV := [⟨0, 1, false, some ([112], [65], 1)⟩, ⟨1, 2, false, some ([112], [66], 2)⟩, ⟨2, 3, false, none⟩]
+    (pushComposition true [⟨thruType, [120]⟩] segs [97, 98, 49, 50]).fault = .none ∧
+    (pushComposition true [⟨thruType, [120]⟩] segs [97, 98, 49, 50]).recs = [⟨thruType, [120]⟩, ⟨[112], [65, 66]⟩, ⟨rawType, [49]⟩, ⟨rawType, [50]⟩] := by
+  decide
 
 end C01History
